@@ -105,6 +105,9 @@ Definition g_sanity_check (ns : list node) (ls : list link) (es : list eqpt) : r
   else if existsb (fun n => ((ntype_eqb (n_type n) TFused) && (negb (Nat.eqb (length (links_of (n_city n) ls)) 2)))) ns then Err "NetworkTopologyError:fused_degree"
   else Ok (map (g_correct_type ls) ns).
 
+(* convert.py: corresp_next_node - the element classes the walk to the next ROADM / amplifier passes over *)
+Definition g_skipped_kind (k : ekind) : bool := match k with KFiber | KFused => true | _ => false end.
+
 (* service_sheet.py: Request_element.__init__ - spacing (GHz), power (dBm), channel count, bandwidth (Gbit/s) *)
 Definition g_spacing (r : req_row) : option Q :=
   match (q_spacing r) with Some x => if (truthy_oq (Some x)) then Some (Qred (x * (1000000000 # 1)%Q)) else None | None => None end.
